@@ -631,6 +631,8 @@ int disasm_arm(
     n++;
   }
 
+  strcpy(instruction, "???");
+
   return 4;
 }
 
